@@ -24,4 +24,4 @@ print(' '.join(m.get('caught_by') or ['$prop']))" 2>/dev/null || echo $prop)
   git -C /repo checkout -- .
   echo "$id: $res" | tee -a $tmp
 done
-mv $tmp $out
+if [ -z "$*" ]; then mv $tmp $out; else cat $tmp; rm -f $tmp; fi
